@@ -221,8 +221,23 @@ CONTRACTS.append(Contract(
 # what the caller wants ignored (docstrings: no namespace or ignore_namespace -> bare name; else no host or ignore_host
 # -> local path; else full path)
 PATH = dict(classname=Str, host=Opt(Str), namespace=Opt(Str))
+# The same path with a CONCRETE two-component namespace.  With a symbolic namespace every obligation below is proved,
+# but a wrong choice of element would only come out `undecided`: on the satisfiable side both solvers answer `unknown`
+# because of the sequence-of-strings model of str.split() (and of the enumeration of a symbolic dictionary).  With the
+# literal, split() and the loops over its parts run concretely and a wrong choice is REFUTED; the components and their
+# number are then exact as well.
+PATH2 = dict(PATH, namespace=Opt(Lit('root/cimv2')))
 HAS_NS = '(self.namespace is not None and not ignore_namespace)'
 HAS_HOST = '(self.host is not None and not ignore_host)'
+
+
+def path_choice(bare, local, full):
+    return [(f'no-namespace-gives-a-bare-{bare}', f'implies(not {HAS_NS}, isinstance(result, _cim_xml.{bare}))'),
+            (f'namespace-without-host-gives-a-{local}',
+             f'implies({HAS_NS} and not {HAS_HOST}, isinstance(result, _cim_xml.{local}))'),
+            (f'namespace-and-host-give-a-{full}', f'implies({HAS_NS} and {HAS_HOST}, isinstance(result, _cim_xml.{full}))')]
+
+
 # str.split is modelled by length facts only (exact when there is no separator): a one-component namespace is shown to
 # be handed over unchanged, for several components only "at least two NAMESPACE children" (A-BUILTIN: str.split)
 namespace_c = Contract(
@@ -233,6 +248,12 @@ localnamespacepath_c = Contract(
     X + 'LOCALNAMESPACEPATH.__init__', trusted=True, raises={},
     requires=[('one-NAMESPACE-child-per-component',
                "len(namespaces) >= 1 and ((len(namespaces) == 1) == ('/' not in caller_self.namespace))")])
+namespace2_c = Contract(
+    X + 'NAMESPACE.__init__', trusted=True, raises={},
+    requires=[('each-NAMESPACE-is-a-component-of-the-namespace', "name == 'root' or name == 'cimv2'")])
+localnamespacepath2_c = Contract(
+    X + 'LOCALNAMESPACEPATH.__init__', trusted=True, raises={},
+    requires=[('one-NAMESPACE-child-per-component', 'len(namespaces) == 2')])
 host_c = Contract(X + 'HOST.__init__', trusted=True, raises={},
                   requires=[('the-host-of-the-path-is-handed-over', 'pcdata == caller_self.host')])
 namespacepath_c = Contract(
@@ -250,22 +271,28 @@ classpath_c = Contract(
     requires=[('NAMESPACEPATH-then-CLASSNAME', 'isinstance(namespacepath, NAMESPACEPATH) and isinstance(classname, CLASSNAME)')])
 NS_CALLEES = {'NAMESPACE.__init__': namespace_c, 'LOCALNAMESPACEPATH.__init__': localnamespacepath_c,
               'HOST.__init__': host_c, 'NAMESPACEPATH.__init__': namespacepath_c}
+NS2_CALLEES = dict(NS_CALLEES, **{'NAMESPACE.__init__': namespace2_c, 'LOCALNAMESPACEPATH.__init__': localnamespacepath2_c})
+CLASSPATH_CALLEES = {'CLASSNAME.__init__': classname_c, 'LOCALCLASSPATH.__init__': localclasspath_c,
+                     'CLASSPATH.__init__': classpath_c}
 CONTRACTS.append(Contract(
-    O + 'CIMClassName.tocimxml',
+    O + 'CIMClassName.tocimxml', label='any namespace',
     params={'self': Obj('CIMClassName', **PATH), 'ignore_host': Bool, 'ignore_namespace': Bool},
-    callees=dict(NS_CALLEES, **{'CLASSNAME.__init__': classname_c, 'LOCALCLASSPATH.__init__': localclasspath_c,
-                                'CLASSPATH.__init__': classpath_c}),
-    ensures=[('no-namespace-gives-a-bare-CLASSNAME',
-              f'implies(not {HAS_NS}, isinstance(result, _cim_xml.CLASSNAME))'),
-             ('namespace-without-host-gives-a-LOCALCLASSPATH',
-              f'implies({HAS_NS} and not {HAS_HOST}, isinstance(result, _cim_xml.LOCALCLASSPATH))'),
-             ('namespace-and-host-give-a-CLASSPATH',
-              f'implies({HAS_NS} and {HAS_HOST}, isinstance(result, _cim_xml.CLASSPATH))')],
+    callees=dict(NS_CALLEES, **CLASSPATH_CALLEES),
+    ensures=path_choice('CLASSNAME', 'LOCALCLASSPATH', 'CLASSPATH'),
+    raises={}))
+CONTRACTS.append(Contract(
+    O + 'CIMClassName.tocimxml', label='two-component namespace',
+    params={'self': Obj('CIMClassName', **PATH2), 'ignore_host': Bool, 'ignore_namespace': Bool},
+    callees=dict(NS2_CALLEES, **CLASSPATH_CALLEES),
+    ensures=path_choice('CLASSNAME', 'LOCALCLASSPATH', 'CLASSPATH'),
     raises={}))
 
 # CIMInstanceName.tocimxml: the same three-way choice, and one KEYBINDING per key.  The keybindings (a NocaseDict) are
-# modelled as a dictionary with string keys
-KEYVAL = Union(Str, Bool, Int, Ref('CIMInstanceName'), Ref('Uint8'), Ref('Real32'), Ref('CIMDateTime'), Ref('Char16'))
+# modelled as a dictionary with string keys: any such dictionary in the first contract, one key of each kind of value
+# in the second (loop unrolled, exact number of children)
+KEYKINDS = dict(k_str=Str, k_bool=Bool, k_int=Int, k_ref=Ref('CIMInstanceName'), k_uint8=Ref('Uint8'),
+                k_real32=Ref('Real32'), k_datetime=Ref('CIMDateTime'), k_char16=Ref('Char16'))
+KEYVAL = Union(*KEYKINDS.values())
 key_path_tocimxml_c = Contract(
     O + 'CIMInstanceName.tocimxml', returns=Ref('Element'), trusted=True,
     requires=[('a-reference-key-is-encoded-with-its-complete-path', 'not ignore_host and not ignore_namespace')])
@@ -287,6 +314,10 @@ instancename_c = Contract(
               # has one KEYBINDING per key is the loop invariant below, checked per iteration over the keys)
               ('KEYBINDING-children-exactly-if-the-path-has-keys',
                'isinstance(data, list) and (len(data) == 0) == (len(caller_self.keybindings) == 0)')])
+instancename2_c = Contract(
+    X + 'INSTANCENAME.__init__', trusted=True, raises={},
+    requires=[('the-class-name-of-the-path-is-handed-over', 'classname == caller_self.classname'),
+              ('one-KEYBINDING-per-key', 'isinstance(data, list) and len(data) == len(caller_self.keybindings)')])
 localinstancepath_c = Contract(
     X + 'LOCALINSTANCEPATH.__init__', trusted=True, raises={},
     requires=[('LOCALNAMESPACEPATH-then-INSTANCENAME',
@@ -295,28 +326,32 @@ instancepath_c = Contract(
     X + 'INSTANCEPATH.__init__', trusted=True, raises={},
     requires=[('NAMESPACEPATH-then-INSTANCENAME',
                'isinstance(namespacepath, NAMESPACEPATH) and isinstance(instancename, INSTANCENAME)')])
+INSTPATH_CALLEES = {'CIMInstanceName.tocimxml': key_path_tocimxml_c, 'VALUE_REFERENCE.__init__': value_reference_of_path_c,
+                    'KEYVALUE.__init__': keyvalue_c, 'KEYBINDING.__init__': keybinding_c,
+                    'INSTANCENAME.__init__': instancename_c, 'LOCALINSTANCEPATH.__init__': localinstancepath_c,
+                    'INSTANCEPATH.__init__': instancepath_c}
 CONTRACTS.append(Contract(
-    O + 'CIMInstanceName.tocimxml',
+    O + 'CIMInstanceName.tocimxml', label='any keybindings, any namespace',
     params={'self': Obj('CIMInstanceName', keybindings=MapOf('str', KEYVAL), **PATH), 'ignore_host': Bool, 'ignore_namespace': Bool},
-    callees=dict(NS_CALLEES, **{'CIMInstanceName.tocimxml': key_path_tocimxml_c, 'VALUE_REFERENCE.__init__': value_reference_of_path_c,
-                                'KEYVALUE.__init__': keyvalue_c, 'KEYBINDING.__init__': keybinding_c,
-                                'INSTANCENAME.__init__': instancename_c, 'LOCALINSTANCEPATH.__init__': localinstancepath_c,
-                                'INSTANCEPATH.__init__': instancepath_c}),
+    callees=dict(NS_CALLEES, **INSTPATH_CALLEES),
     kinds={'kbs': 'ref'},
     loops={1: LoopSpec(target='(key, value)', types={'key': Str, 'value': KEYVAL, 'value_type': Str, 'cim_type': Opt(Str)},
                        modifies=['kbs'], invariant=[('one-KEYBINDING-per-key-so-far', 'len(kbs) == _i')])},
-    ensures=[('no-namespace-gives-a-bare-INSTANCENAME',
-              f'implies(not {HAS_NS}, isinstance(result, _cim_xml.INSTANCENAME))'),
-             ('namespace-without-host-gives-a-LOCALINSTANCEPATH',
-              f'implies({HAS_NS} and not {HAS_HOST}, isinstance(result, _cim_xml.LOCALINSTANCEPATH))'),
-             ('namespace-and-host-give-an-INSTANCEPATH',
-              f'implies({HAS_NS} and {HAS_HOST}, isinstance(result, _cim_xml.INSTANCEPATH))')],
+    ensures=path_choice('INSTANCENAME', 'LOCALINSTANCEPATH', 'INSTANCEPATH'),
+    raises={}))
+CONTRACTS.append(Contract(
+    O + 'CIMInstanceName.tocimxml', label='one key of each kind, two-component namespace',
+    params={'self': Obj('CIMInstanceName', keybindings=Rec(**KEYKINDS), **PATH2), 'ignore_host': Bool, 'ignore_namespace': Bool},
+    callees=dict(NS2_CALLEES, **dict(INSTPATH_CALLEES, **{'INSTANCENAME.__init__': instancename2_c})),
+    kinds={'kbs': 'ref'},
+    ensures=path_choice('INSTANCENAME', 'LOCALINSTANCEPATH', 'INSTANCEPATH'),
     raises={}))
 
 # ---- 6. CIMInstance.tocimxml(ignore_path): INSTANCE, or the VALUE.* wrapper that the path of the instance calls for
 # (docstring: no path or ignore_path -> INSTANCE; path without namespace -> VALUE.NAMEDINSTANCE; namespace without host
 # -> VALUE.OBJECTWITHLOCALPATH; else VALUE.INSTANCEWITHPATH).  properties is read with .items() and .values(): modelled
-# as a dictionary with string keys whose values are CIMProperty objects (the setter of CIMInstance.properties ensures it)
+# as a dictionary with string keys whose values are CIMProperty objects (the setter of CIMInstance.properties ensures
+# it): any such dictionary in the first contract, exactly two properties in the second (see the remark at PATH2)
 prop_tocimxml_c = Contract(O + 'CIMProperty.tocimxml', returns=Ref('Element'), trusted=True,
                            notes='proved above, per shape of the property')
 own_path_tocimxml_c = Contract(
@@ -325,9 +360,7 @@ own_path_tocimxml_c = Contract(
     O + 'CIMInstanceName.tocimxml', returns=Union(Ref('INSTANCENAME'), Ref('LOCALINSTANCEPATH'), Ref('INSTANCEPATH')),
     trusted=True,
     requires=[('the-own-path-is-encoded-completely', 'self is caller_self.path and not ignore_host and not ignore_namespace')],
-    ensures=[f'implies(not {HAS_NS}, isinstance(result, _cim_xml.INSTANCENAME))',
-             f'implies({HAS_NS} and not {HAS_HOST}, isinstance(result, _cim_xml.LOCALINSTANCEPATH))',
-             f'implies({HAS_NS} and {HAS_HOST}, isinstance(result, _cim_xml.INSTANCEPATH))'],
+    ensures=[e for _n, e in path_choice('INSTANCENAME', 'LOCALINSTANCEPATH', 'INSTANCEPATH')],
     notes='the three postconditions are proved above (CIMInstanceName.tocimxml)')
 instance_c = Contract(
     X + 'INSTANCE.__init__', trusted=True, raises={},
@@ -335,6 +368,11 @@ instance_c = Contract(
               # (no cardinality of a symbolic dictionary in the engine beyond "empty or not")
               ('PROPERTY-children-exactly-if-the-instance-has-properties',
                '(len(properties) == 0) == (len(caller_self.properties) == 0)'),
+              ('one-QUALIFIER-child-per-qualifier', QUALS)])
+instance2_c = Contract(
+    X + 'INSTANCE.__init__', trusted=True, raises={},
+    requires=[('the-class-name-is-handed-over', 'classname == caller_self.classname'),
+              ('one-PROPERTY-child-per-property', 'len(properties) == len(caller_self.properties)'),
               ('one-QUALIFIER-child-per-qualifier', QUALS)])
 value_namedinstance_c = Contract(
     X + 'VALUE_NAMEDINSTANCE.__init__', trusted=True, raises={},
@@ -346,27 +384,33 @@ value_instancewithpath_c = Contract(
     X + 'VALUE_INSTANCEWITHPATH.__init__', trusted=True, raises={},
     requires=[('INSTANCEPATH-then-INSTANCE', 'isinstance(data1, INSTANCEPATH) and isinstance(data2, INSTANCE)')])
 WITH_PATH = '(self.path is not None and not ignore_path)'
+INSTANCE_CALLEES = {'CIMProperty.tocimxml': prop_tocimxml_c, 'CIMQualifier.tocimxml': qual_tocimxml_c,
+                    'CIMInstanceName.tocimxml': own_path_tocimxml_c, 'INSTANCE.__init__': instance_c,
+                    'VALUE_NAMEDINSTANCE.__init__': value_namedinstance_c,
+                    'VALUE_OBJECTWITHLOCALPATH.__init__': value_objectwithlocalpath_c,
+                    'VALUE_INSTANCEWITHPATH.__init__': value_instancewithpath_c}
+INSTANCE_ENSURES = [
+    ('no-path-gives-an-INSTANCE', f'implies(not {WITH_PATH}, isinstance(result, _cim_xml.INSTANCE))'),
+    ('path-without-namespace-gives-a-VALUE.NAMEDINSTANCE',
+     f'implies({WITH_PATH}, implies(self.path.namespace is None, isinstance(result, _cim_xml.VALUE_NAMEDINSTANCE)))'),
+    ('path-with-namespace-only-gives-a-VALUE.OBJECTWITHLOCALPATH',
+     f'implies({WITH_PATH}, implies(self.path.namespace is not None and self.path.host is None, '
+     'isinstance(result, _cim_xml.VALUE_OBJECTWITHLOCALPATH)))'),
+    ('path-with-namespace-and-host-gives-a-VALUE.INSTANCEWITHPATH',
+     f'implies({WITH_PATH}, implies(self.path.namespace is not None and self.path.host is not None, '
+     'isinstance(result, _cim_xml.VALUE_INSTANCEWITHPATH)))')]
 CONTRACTS.append(Contract(
-    O + 'CIMInstance.tocimxml',
+    O + 'CIMInstance.tocimxml', label='any properties',
     params={'self': Obj('CIMInstance', classname=Str, properties=MapOf('str', ('ref', 'CIMProperty')),
                         qualifiers=Ref('NocaseDict'), path=Opt(Obj('CIMInstanceName', **PATH))),
             'ignore_path': Bool},
-    callees={'CIMProperty.tocimxml': prop_tocimxml_c, 'CIMQualifier.tocimxml': qual_tocimxml_c,
-             'CIMInstanceName.tocimxml': own_path_tocimxml_c, 'INSTANCE.__init__': instance_c,
-             'VALUE_NAMEDINSTANCE.__init__': value_namedinstance_c,
-             'VALUE_OBJECTWITHLOCALPATH.__init__': value_objectwithlocalpath_c,
-             'VALUE_INSTANCEWITHPATH.__init__': value_instancewithpath_c},
-    kinds=KQ,
-    ensures=[('no-path-gives-an-INSTANCE', f'implies(not {WITH_PATH}, isinstance(result, _cim_xml.INSTANCE))'),
-             ('path-without-namespace-gives-a-VALUE.NAMEDINSTANCE',
-              f'implies({WITH_PATH}, implies(self.path.namespace is None, isinstance(result, _cim_xml.VALUE_NAMEDINSTANCE)))'),
-             ('path-with-namespace-only-gives-a-VALUE.OBJECTWITHLOCALPATH',
-              f'implies({WITH_PATH}, implies(self.path.namespace is not None and self.path.host is None, '
-              'isinstance(result, _cim_xml.VALUE_OBJECTWITHLOCALPATH)))'),
-             ('path-with-namespace-and-host-gives-a-VALUE.INSTANCEWITHPATH',
-              f'implies({WITH_PATH}, implies(self.path.namespace is not None and self.path.host is not None, '
-              'isinstance(result, _cim_xml.VALUE_INSTANCEWITHPATH)))')],
-    raises={}))
+    callees=INSTANCE_CALLEES, kinds=KQ, ensures=INSTANCE_ENSURES, raises={}))
+CONTRACTS.append(Contract(
+    O + 'CIMInstance.tocimxml', label='two properties',
+    params={'self': Obj('CIMInstance', classname=Str, properties=Rec(p1=Ref('CIMProperty'), p2=Ref('CIMProperty')),
+                        qualifiers=Ref('NocaseDict'), path=Opt(Obj('CIMInstanceName', **PATH))),
+            'ignore_path': Bool},
+    callees=dict(INSTANCE_CALLEES, **{'INSTANCE.__init__': instance2_c}), kinds=KQ, ensures=INSTANCE_ENSURES, raises={}))
 
 # ---- 7. CIMClass.tocimxml: CLASS (three NocaseDicts with different item classes: see the remark at CIMMethod)
 class_c = Contract(
